@@ -395,6 +395,35 @@ def timeline_holes(rep):
         rep.violation(f"timeline-hole:{b.split(':')[0]}", b, {"obligation": "G", "what": b}, True)
 
 
+def date_forms(rep):
+    """D: the environment depends on the DAY asked for, not on how the day is written: ISO strings (also with
+    day <= 12 and day != month), date objects and year integers give the same date stamp"""
+    from _gettsim.policy_environment import _parse_date
+
+    bad = []
+    n = 0
+    for y, m_, d_ in ((2019, 7, 1), (2015, 6, 23), (2022, 10, 1), (2005, 1, 12), (2024, 12, 3), (2020, 2, 29)):
+        want = datetime.date(y, m_, d_)
+        for form in (f"{y:04d}-{m_:02d}-{d_:02d}", want, datetime.datetime(y, m_, d_)):
+            n += 1
+            try:
+                got = _parse_date(form)
+                got = got.date() if isinstance(got, datetime.datetime) else got
+            except Exception as ex:  # noqa: BLE001
+                got = repr(ex)
+            if got != want:
+                bad.append(f"{form!r} -> {got}")
+    n += 1
+    try:
+        if _parse_date(2021) != datetime.date(2021, 1, 1):
+            bad.append(f"2021 -> {_parse_date(2021)}")
+    except Exception as ex:  # noqa: BLE001
+        bad.append(f"2021 -> {ex!r}")
+    rep.ob(f"D a day is the same day however it is written ({n} forms: ISO strings, date, datetime, year)", "refuted" if bad else "discharged", "exhaustive-run", 0, "src/_gettsim/policy_environment.py _parse_date", "date-forms", "; ".join(bad[:4]))
+    for b in bad[:3]:
+        rep.violation(f"date-form:{b[:40]}", f"_parse_date({b.split(' -> ')[0]}) gives {b.split(' -> ')[1]}: set_up_policy_environment returns the law of another day", {"obligation": "D", "what": b}, True)
+
+
 def history_independence(rep, tier):
     """H: the environment is a function of the date alone -- after every mutable object reachable from
     previously returned environments (same day, next day, a year earlier) has been overwritten in
@@ -463,6 +492,7 @@ def run(tier="quick", seed=0, jobs=16):
     small_pieces(rep)
     yaml_keys_wellformed(rep)
     timeline_holes(rep)
+    date_forms(rep)
     history_independence(rep, tier)
     last = venv.last_parameter_date()
     end = last.replace(year=last.year + 1)
